@@ -120,7 +120,7 @@ func C03(c *Ctx) {
 		"(typestate) every store of an order whose Status is a constant is one of: Raised on a fresh order; Rejected under Status==Raised and [elapsed>=DecisionTimeLimit ∧ accepts<MinAccepts] or [rejects > len(signers)-MinAccepts]; Accepted under Status==Raised ∧ accepts>=MinAccepts ∧ ¬(rejects>threshold); Completed under Status==Accepted; any other writer must copy Status from the loaded order (or be genesis import); " +
 		"(A3) in the begin blocker no path runs the minting step after the tally step (one-block delay); inside the completion loop every iteration that stores Completed also mints and dequeues the same id, and every tally outcome dequeues from the raised queue (accept also enqueues in the accepted queue) before the next iteration. " +
 		"Decides these structural necessary conditions on every path; does not decide queue/status consistency as an inductive invariant over histories."
-	r.Rules = []string{"A1.section-writers", "A2.whitelist-action", "A2.raise-guards", "A7.raise-fields", "A2.decide-guards", "A2.decide-once-loop", "A7.decision-signer-form", "A4.decide-fields", "TS.status-transition", "A3.one-block-delay", "A3.completion-pairing", "A3.tally-pairing"}
+	r.Rules = []string{"A1.section-writers", "A2.whitelist-action", "A2.raise-guards", "A7.raise-fields", "A2.decide-guards", "A2.decide-once-loop", "A7.decision-signer-form", "A4.decide-fields", "TS.status-transition", "A3.one-block-delay", "A3.completion-pairing", "A3.tally-pairing", "A3.queue-membership"}
 	r.Trusted = []string{"bank MintCoins semantics", "params are read from the store at every use (C16)"}
 	r.NotDecided = []string{"consistency of queues and statuses over all histories (inductive)", "behaviour of uint64 subtraction now-RaiseTime when block time goes backwards"}
 
@@ -146,6 +146,7 @@ func C03(c *Ctx) {
 	decideRules(c)
 	statusTypestate(c)
 	blockerOrdering(c)
+	queueMembership(c)
 }
 
 func raiseRules(c *Ctx) {
@@ -565,6 +566,9 @@ func statusTypestate(c *Ctx) {
 					}
 				}
 			}
+			if len(split) == 0 && allConst {
+				split = verdictSplit(c, pw, st)
+			}
 			if len(split) > 0 {
 				extra = append(extra, split...)
 				nw += len(split) - 1
@@ -916,4 +920,147 @@ func statusSuppliers(c *Ctx, pw poWriter, k string) []statusSupplier {
 		}
 	}
 	return out
+}
+
+// verdictSplit: the status stored is the verdict of a helper that returns one of several status constants
+// (`status := tally.outcome(params); ...; po.Status = status`). Each constant the store can actually receive (judged with
+// the facts of the flat view: a verdict the caller tests and turns away never arrives) is one transition, judged at the
+// helper's return that produces it — the return must stand under the guards of its transition.
+func verdictSplit(c *Ctx, pw poWriter, st *ir.Expr) []poWriter {
+	w := c.W
+	type level struct {
+		f     *ssa.Function
+		chain []ssa.Instruction
+	}
+	levels := []level{{pw.Top, nil}}
+	for i := range pw.Chain {
+		var next *ssa.Function
+		if i+1 < len(pw.Chain) {
+			next = pw.Chain[i+1].Parent()
+		} else {
+			next = pw.Eff.Fn
+		}
+		levels = append(levels, level{next, pw.Chain[:i+1]})
+	}
+	var out []poWriter
+	seen := map[*ssa.Function]bool{}
+	for _, lv := range levels {
+		if lv.f == nil || seen[lv.f] {
+			continue
+		}
+		seen[lv.f] = true
+		for _, b := range lv.f.Blocks {
+			for _, in := range b.Instrs {
+				store, ok := in.(*ssa.Store)
+				if !ok {
+					continue
+				}
+				fa, ok := store.Addr.(*ssa.FieldAddr)
+				if !ok || fieldAddrName(fa) != "Status" {
+					continue
+				}
+				if _, isConst := store.Val.(*ssa.Const); isConst {
+					continue
+				}
+				// which constants arrive at the store?
+				feasible := map[string]bool{}
+				unknown := false
+				root := w.FlatRoot(lv.f)
+				w.FlatWalk(root, nil, nil, func(p ir.FPos) bool {
+					if p.Ctx == root && p.In == ssa.Instruction(store) {
+						if k, ok := p.ConstAt(store.Val); ok {
+							feasible[k] = true
+						} else {
+							unknown = true
+						}
+					}
+					return true
+				})
+				for _, a := range valueAlts(c, lv.f, store, store.Val) {
+					cst, ok := a.V.(*ssa.Const)
+					if !ok || cst.Value == nil || a.E.Op != "const" {
+						return nil
+					}
+					if !unknown && !feasible[cst.Value.ExactString()] {
+						continue
+					}
+					if _, isRet := a.Pos.In.(*ssa.Return); !isRet {
+						return nil
+					}
+					var calls []ssa.Instruction
+					for x := a.Pos.Ctx; x != nil && x.Call != nil; x = x.Up {
+						calls = append([]ssa.Instruction{x.Call}, calls...)
+					}
+					st2 := *st
+					st2.Args = append([]*ir.Expr{}, st.Args...)
+					for i, f := range st2.Fields {
+						if f == "Status" {
+							st2.Args[i] = a.E
+						}
+					}
+					pw2 := pw
+					pw2.Chain = append(append([]ssa.Instruction{}, lv.chain...), calls...)
+					pw2.Struct = &st2
+					pw2.Eff.Site = a.Pos.In
+					out = append(out, pw2)
+				}
+			}
+		}
+	}
+	return out
+}
+
+// queueMembership is rule A3.queue-membership, the converse of the pairing rules: an id is put on the raised (accepted)
+// queue only on a path on which an order was given Status=Raised (Accepted) — every path from a transaction or block
+// entry point to the enqueue passes an instruction that assigns that constant to a Status field or returns it as the
+// verdict the status is set from. The later steps rely on it: the tally and the minting step panic (halting the chain)
+// on a queued order in another status. Judged on the flat view with its facts, so `if po.Status == Accepted { enqueue }`
+// after `po.Status = verdict` is followed to the verdict's returns.
+func queueMembership(c *Ctx) {
+	w, r := c.W, c.R
+	n := 0
+	for _, q := range []struct{ sec, status, name string }{{secRaisedQ, stRaised, "raised"}, {secAcceptedQ, stAccepted, "accepted"}} {
+		isEnq := func(e ir.Effect) bool { return e.Kind == "StoreWrite" && e.Section == q.sec }
+		direct := directSites(c, isEnq)
+		isStatusConst := func(v ssa.Value) bool {
+			cst, ok := v.(*ssa.Const)
+			if !ok || cst.Value == nil {
+				return false
+			}
+			e := w.ExprOf(v)
+			return e.Op == "const" && e.Name == q.status
+		}
+		gives := func(_ *ir.FCtx, in ssa.Instruction) bool {
+			switch x := in.(type) {
+			case *ssa.Store:
+				fa, ok := x.Addr.(*ssa.FieldAddr)
+				return ok && fieldAddrName(fa) == "Status" && isStatusConst(x.Val)
+			case *ssa.Return:
+				for _, rv := range x.Results {
+					if isStatusConst(rv) {
+						return true
+					}
+				}
+			}
+			return false
+		}
+		seen := map[*ssa.Function]bool{}
+		for _, h := range w.WhoReaches([]string{"MSG", "BEGIN", "END", "ANTE"}, isEnq) {
+			if seen[h.Root] {
+				continue
+			}
+			seen[h.Root] = true
+			n++
+			root := w.FlatRoot(h.Root)
+			hit := w.FlatReaches(root, nil, &ir.FlatCut{Barrier: gives}, func(p ir.FPos) bool { return direct(p.In) })
+			where := ""
+			if hit != nil {
+				where = pos(c, hit.In) + " via " + strings.Join(hit.Ctx.Chain(), " -> ")
+			}
+			r.Require(hit == nil, "A3.queue-membership", q.name+"|root="+fn(h.Root), w.Pos(h.Root.Pos()),
+				"an id is put on the "+q.name+" queue only on a path that gives an order Status="+q.status+" (the next step panics on a queued order in any other status)",
+				"the enqueue at "+where+" is reachable without any assignment or verdict of "+q.status)
+		}
+	}
+	r.Floor("entry points enqueuing purchase orders", n, 2)
 }
